@@ -4,6 +4,7 @@
 set -e
 cd "$(dirname "$0")"
 python3 gen_mounts.py
+python3 gen_env.py
 declare -A dirs=( [adaptation]=pkg/adaptation [api]=pkg/api [stub]=pkg/stub [net]=pkg/net [multiplex]=pkg/net/multiplex [generate]=pkg/runtime-tools/generate [deviceinjector]=plugins/device-injector [ulimitadjuster]=plugins/ulimit-adjuster )
 for pkg in "${!dirs[@]}"; do
   ls ${pkg}_*.txt >/dev/null 2>&1 || continue
